@@ -101,7 +101,6 @@ def make_runner(case, inc, pid, wd, ext, fault, seen, clock):
     from pyphysim.simulations.runner import SimulationRunner
     from pyphysim.simulations.results import Result, SimulationResults
     nv = case["nv"]
-    token = 1000 ** (inc - 1)
 
     class Runner(SimulationRunner):
         def __init__(self):
@@ -114,8 +113,11 @@ def make_runner(case, inc, pid, wd, ext, fault, seen, clock):
             self.delete_partial_results_bool = bool(case["delete"])
             self.set_results_filename(os.path.join(wd, "res" + ext))
             self.known = {}
+            # what changes from one incarnation to the next when the SAME runner object is started again
+            self.ctl = {"token": 1000 ** (inc - 1), "fault": fault, "seen": seen, "clock": clock}
 
         def _hit(self, kind, v, rep=None):
+            fault = self.ctl["fault"]
             if fault and fault["kind"] == kind and fault["v"] == v and (rep is None or fault["rep"] == rep) and not fault.get("done"):
                 fault["done"] = True
                 raise Crash()
@@ -129,7 +131,8 @@ def make_runner(case, inc, pid, wd, ext, fault, seen, clock):
             v = current_params["p"]
             self._hit("body", v, self.known.get(v, 0))
             if [v, self.known.get(v, 0) + 1] in [[tv, f_real(tr)] for tv, tr in timers_of(nv, case["repmax"])]:
-                clock[0] += 0.0 if os.environ.get("VERIF_C07_NOTIMER") else 301.0          # "more than five minutes" since the last save
+                self.ctl["clock"][0] += 0.0 if os.environ.get("VERIF_C07_NOTIMER") else 301.0          # "more than five minutes" since the last save
+            token = self.ctl["token"]
             r = SimulationResults()
             r.add_new_result("tok", Result.SUMTYPE, token)
             r.add_new_result("rat", Result.RATIOTYPE, token, 2 ** 10)
@@ -137,6 +140,7 @@ def make_runner(case, inc, pid, wd, ext, fault, seen, clock):
 
         def _keep_going(self, current_params, current_sim_results, current_rep):
             v = current_params["p"]
+            seen = self.ctl["seen"]
             if v not in seen:
                 seen[v] = int(current_rep)      # the first count this incarnation works with
             self.known[v] = int(current_rep)
@@ -177,7 +181,8 @@ def fault_of(h, case):
 
 def run_case(job):
     """-> (None | description, finding id | None)"""
-    case, ext = job
+    case, ext = job[0], job[1]
+    reuse = len(job) > 2 and job[2]       # restart on the SAME runner object (interrupted in-process) instead of a new one
     import pyphysim.simulations.results as resmod
     from pyphysim.simulations.results import SimulationResults
     os.makedirs(tlc.WORK, exist_ok=True)
@@ -190,15 +195,25 @@ def run_case(job):
         pids = [1] * (incs - 1) + [case["pid"]]
         loaded = {(l[0], l[1]): l[2] for l in case["loaded"]}
         runner = None
+        clock_prev = None
         for inc in range(1, incs + 1):
             last = inc == incs
             fault = None if last else fault_of(crashes[inc - 1], case)
             seen = {}
-            clock = [1000.0 * inc]
+            # virtual wall clock; a restarted (same) runner object goes on with the clock it had, so that the
+            # five-minute timer does not fire merely because a new incarnation started
+            clock = clock_prev if (reuse and runner is not None) else [1000.0]
+            clock_prev = clock
             import pyphysim.simulations.runner as runmod
             real_time = runmod.time
             runmod.time = lambda: clock[0]
-            runner = make_runner(case, inc, pids[inc - 1], wd, ext, fault, seen, clock)
+            if reuse and runner is not None:
+                runner.ctl = {"token": 1000 ** (inc - 1), "fault": fault, "seen": seen, "clock": clock}
+                runner.known = {}
+                if pids[inc - 1] != pids[inc - 2]:
+                    runner.params["noise"] = 4e-9          # item syntax on the live parameters object
+            else:
+                runner = make_runner(case, inc, pids[inc - 1], wd, ext, fault, seen, clock)
             real_remove = os.remove
             if fault and fault["kind"] == "write":
                 target = fault["file"]
@@ -305,7 +320,8 @@ def run(ctx):
                 "of every partial/final save, followed by a restart with the same or other parameters; distinct = crash histories executed")
     ctx.assumptions += ["a crash is emulated in-process by a BaseException at the corresponding hook / file operation and discarding the runner",
                         "model save period 3 is mapped to the code's 500 (r -> (r div 3)*500 + (0,1,499)[r mod 3])",
-                        "stop rule 'always', no skips (those are C05)"]
+                        "stop rule 'always', no skips (those are C05)",
+                        "half of the histories restart the SAME runner object (interrupted in-process), the other half a new object"]
     thorough = ctx.tier == "thorough"
     # (nv, repmax(model), maxinc, delete, mismatch, sample)
     cfgs = [(2, 2, 2, True, True, None), (2, 3, 2, False, True, None), (2, 4, 2, True, True, None), (1, 7, 2, True, False, None),
@@ -325,16 +341,18 @@ def run(ctx):
         cases = r.emitted
         if c[5] and len(cases) > c[5]:
             cases = rng.sample(cases, c[5])
-        jobs = [(cs, (".pickle", ".json", "")[i % 3]) for i, cs in enumerate(cases)]
+        # same-object restarts only where no timer point exists: after a save that crashed, the five-minute timer of a live
+        # object stays expired and fires again at the next opportunity - correct, but outside the TimerAt abstraction
+        jobs = [(cs, (".pickle", ".json", "")[i % 3], (i // 3) % 2 == 1 and not timers_of(c[0], c[1])) for i, cs in enumerate(cases)]
         res = pool_map(run_case, jobs, chunksize=max(1, len(jobs) // 64))
-        for (cs, ext), (d, fid) in zip(jobs, res):
+        for (cs, ext, reuse), (d, fid) in zip(jobs, res):
             ctx.ok((label, str([(h.get("crash"), h["v"], h["rep"], h.get("wf"), h.get("nw")) for h in cs["hist"] if "crash" in h]), cs["pid"]))
             ctx.trace_done()
             if d:
                 if fid:
-                    ctx.finding(fid, d, {"case": cs, "ext": ext})
+                    ctx.finding(fid, d, {"case": cs, "ext": ext, "reuse": reuse})
                 else:
-                    ctx.violation(f"{label}{ext}: {d}", {"case": cs, "ext": ext})
+                    ctx.violation(f"{label}{ext}{' (same runner object restarted)' if reuse else ''}: {d}", {"case": cs, "ext": ext, "reuse": reuse})
         if cases:
             cs = cases[len(cases) // 2]
             ctx.sample({"config": label, "crashes": [{k: h[k] for k in ("inc", "crash", "v", "rep", "wf", "nw")} for h in cs["hist"] if "crash" in h],
@@ -345,7 +363,7 @@ def run(ctx):
 
 def replay(ctx, data):
     c = data["case"]
-    d, fid = run_case((c["case"], c["ext"]))
+    d, fid = run_case((c["case"], c["ext"], c.get("reuse", False)))
     ctx.ok()
     if d:
         if fid:
